@@ -1,6 +1,6 @@
 /-
 C03.4, concrete side, definitions: the family of ranges behind the events that `AddLocation` and
-`Rearrange` generate for a subnet list of one map, and the well-formedness conditions W0–W3.
+`Rearrange` generate for a subnet list of one map, and the well-formedness conditions W0, W1, W3.
 -/
 import DnsVerif.Proofs.LpmSweep
 import DnsVerif.Proofs.Lpm
@@ -12,12 +12,13 @@ open DnsVerif DnsVerif.Rearr DnsVerif.Spec
 def addAll (S : List SubnetDecl) : Rearranger :=
   S.foldl (fun r s => addLocation r s.net s.ones s.loc) {}
 
-/-- the ranges one `AddLocation` call stands for (its three branches, exactly as written: the two
-default-route tests look at the address only) -/
+/-- the ranges one `AddLocation` call stands for (its three branches, exactly as written: a default
+route is `::/0` resp. `0.0.0.0/0` = `::ffff:0:0/96`; any other block — also one that starts at `::` or
+`::ffff:0:0` — is an ordinary range) -/
 def rngOf (s : SubnetDecl) : List Rng :=
-  if s.net = 0 then
+  if s.net = 0 ∧ s.ones = 0 then
     [⟨0, TOP, s.ones, some s.loc, none⟩, ⟨afterIPv4, TOP, s.ones, some s.loc, none⟩]
-  else if s.net = firstIPv4 then [⟨firstIPv4, afterIPv4, s.ones, some s.loc, some s.loc⟩]
+  else if s.net = firstIPv4 ∧ s.ones = 96 then [⟨firstIPv4, afterIPv4, s.ones, some s.loc, some s.loc⟩]
   else [⟨blockStart s.net s.ones, blockStart s.net s.ones + blockSize s.ones, s.ones, some s.loc, none⟩]
 
 /-- the implicit null ranges `Rearrange` adds when a default route is missing -/
@@ -25,13 +26,15 @@ def R4 : Rng := ⟨firstIPv4, afterIPv4, 0, none, none⟩
 def R6a : Rng := ⟨0, TOP, 0, none, none⟩
 def R6b : Rng := ⟨afterIPv4, TOP, 0, none, none⟩
 
-def hasV4 (S : List SubnetDecl) : Bool := S.any fun s => s.net = firstIPv4
-def hasV6 (S : List SubnetDecl) : Bool := S.any fun s => s.net = 0
+def hasV4 (S : List SubnetDecl) : Bool := S.any fun s => s.net = firstIPv4 ∧ s.ones = 96
+def hasV6 (S : List SubnetDecl) : Bool := S.any fun s => s.net = 0 ∧ s.ones = 0
 
 def famOf (S : List SubnetDecl) : List Rng :=
   S.flatMap rngOf ++ (if hasV4 S then [] else [R4]) ++ (if hasV6 S then [] else [R6a, R6b])
 
-/-- W0–W3 for the subnets of one map -/
+/-- W0, W1, W3 for the subnets of one map. (Until the repair "only ::/0 and 0.0.0.0/0 are default
+routes for the rearranger" a further condition W2 was needed — network `::` only as `::/0`, network
+`::ffff:0:0` only as `0.0.0.0/0` —, see `SubsWFOld`.) -/
 structure SubsWF (S : List SubnetDecl) : Prop where
   ones_le : ∀ s ∈ S, s.ones ≤ 128
   net_lt : ∀ s ∈ S, s.net < 2 ^ 128
@@ -39,11 +42,30 @@ structure SubsWF (S : List SubnetDecl) : Prop where
   aligned : ∀ s ∈ S, s.net % 2 ^ (128 - s.ones) = 0
   /-- W1: no two subnets with the same (network, length) -/
   w1 : S.Pairwise fun s t => ¬ (s.net = t.net ∧ s.ones = t.ones)
+  /-- W3: no block other than `::/0` (and `0.0.0.0/0` itself) contains `::ffff:0:0/96`; with W0 the
+  blocks this excludes are the 95 proper IPv6-family super-blocks of the IPv4 range: `::/n` for
+  1 ≤ n ≤ 80 and `::8000:0:0/81`, `::c000:0:0/82`, …, `::fffe:0:0/95` -/
+  w3 : ∀ s ∈ S, ¬ (s.net = 0 ∧ s.ones = 0) → ¬ (s.net = firstIPv4 ∧ s.ones = 96) →
+    ¬ (s.net ≤ firstIPv4 ∧ afterIPv4 ≤ s.net + 2 ^ (128 - s.ones))
+  loc_len : ∀ s ∈ S, s.loc.length = 2
+
+/-- the former, stronger well-formedness: W0–W3 with W2 -/
+structure SubsWFOld (S : List SubnetDecl) : Prop where
+  ones_le : ∀ s ∈ S, s.ones ≤ 128
+  net_lt : ∀ s ∈ S, s.net < 2 ^ 128
+  aligned : ∀ s ∈ S, s.net % 2 ^ (128 - s.ones) = 0
+  w1 : S.Pairwise fun s t => ¬ (s.net = t.net ∧ s.ones = t.ones)
   /-- W2: network `::` only as `::/0`, network `::ffff:0:0` only as `0.0.0.0/0` -/
   w2 : ∀ s ∈ S, (s.net = 0 → s.ones = 0) ∧ (s.net = firstIPv4 → s.ones = 96)
-  /-- W3: no block other than `::/0` (and `0.0.0.0/0` itself) contains `::ffff:0:0/96` -/
+  /-- W3 in its former wording -/
   w3 : ∀ s ∈ S, s.net ≠ 0 → s.net ≠ firstIPv4 →
     ¬ (s.net ≤ firstIPv4 ∧ afterIPv4 ≤ s.net + 2 ^ (128 - s.ones))
   loc_len : ∀ s ∈ S, s.loc.length = 2
+
+/-- the former hypotheses imply the present ones -/
+theorem SubsWFOld.toWF {S : List SubnetDecl} (h : SubsWFOld S) : SubsWF S :=
+  ⟨h.ones_le, h.net_lt, h.aligned, h.w1,
+   fun s hs h0 h4 => h.w3 s hs (fun e => h0 ⟨e, (h.w2 s hs).1 e⟩) (fun e => h4 ⟨e, (h.w2 s hs).2 e⟩),
+   h.loc_len⟩
 
 end DnsVerif.Lpm
